@@ -585,7 +585,11 @@ class PDA:
             if state == self._start_state:
                 add_start_state_to_graph(graph, state)
         if self._start_stack_symbol is not None:
-            graph.add_node("INITIAL_STACK_HIDDEN",
+            hidden = "INITIAL_STACK_HIDDEN"
+            while hidden in graph:
+                # A state already has this name
+                hidden += "_"
+            graph.add_node(hidden,
                            label=json.dumps(self._start_stack_symbol.value),
                            shape=None,
                            height=.0,
@@ -643,9 +647,13 @@ class PDA:
                 pda.set_start_state(node)
             if graph.nodes[node].get("is_final", False):
                 pda.add_final_state(node)
-        if "INITIAL_STACK_HIDDEN" in graph.nodes:
-            pda.set_start_stack_symbol(
-                json.loads(graph.nodes["INITIAL_STACK_HIDDEN"]["label"]))
+        for node in graph.nodes:
+            # The hidden node is not a state: it has no is_start attribute
+            if isinstance(node, str) and \
+                    node.startswith("INITIAL_STACK_HIDDEN") and \
+                    "is_start" not in graph.nodes[node]:
+                pda.set_start_stack_symbol(
+                    json.loads(graph.nodes[node]["label"]))
         return pda
 
     def write_as_dot(self, filename):
